@@ -92,9 +92,10 @@ def check_C08(ctx):
                        "distinct_nontrivial = distinct scripts (by text hash) that executed with Ok at least one edge/face-changing or renumbering "
                        "operation on a mesh that already has a cell")
     ctx.cov["samples"] += [{"theorem": t} for t in fw.theorem_statements("Props/Properties_C08.v", 4)]
+    also_prove_file(ctx, "Props/Properties_C01_all.v", samples=0)      # C08_faces_stay_closed_along_all_histories
     ctx.assumptions += ["handles below 2^30 (so that 2i+1 is representable as int), as the library assumes silently",
-                        "closedness is proved for the model's add_face check and mirrored side; that faces stay closed through later renumbering is "
-                        "checked by the lock step + oracle, not yet by a theorem"]
+                        "closedness is proved for the model's add_face check and mirrored side, and that faces stay closed through every later renumbering "
+                        "along every history of C01's class (C08_faces_stay_closed_along_all_histories)"]
 
 # ------------------------------------------------------------------------------------ kernel family helper
 
@@ -145,6 +146,7 @@ def check_C17(ctx):
     kf = [f for f in fw.known_findings("C17") if f.get("id") == "D13"]
     if kf and any(of["oracle"] == "C17-deleted-def" and of["script"].startswith("D13") for of in ctx.kernel_run.oracle_fails):
         ctx.known.append("swap_face_indices leaves the stored definition of a deferred-deleted cell unrelabeled (D13; replay corpus/kernel/known-findings.scripts)")
+    also_prove_file(ctx, "Props/Properties_C01_all.v", samples=0)      # C17_swaps_keep_the_invariant_with_deletions_pending
 
 def also_prove_file(ctx, vfile, samples=2):
     """a further property file of the same property: obligations and theorems add up"""
@@ -170,7 +172,8 @@ def check_C12(ctx):
                     {"DelV", "DelE", "DelF", "DelC", "SwapV", "SwapE", "SwapF", "SwapC", "GC", "EnVBU", "EnEBU", "EnFBU", "EnDef", "AddE", "AddFV", "AddC"},
                     assumptions=["'no operation reads a disabled cache out of range' is decided on the real library by ASan/UBSan/_GLIBCXX_ASSERTIONS on every lock-step run "
                                  "(all 8 incidence subsets x 4 deletion modes) and by the twin-mesh oracle, not by a theorem (the model totalises vector reads)",
-                                 "edge incidences after re-enabling: exact membership proved; the subsequent rotational re-ordering is C09"])
+                                 "edge incidences after re-enabling: exact incl. the re-ordering, and every toggle is an operation of C01's history class (Properties_C01_all.v: C12_*)"])
+    also_prove_file(ctx, "Props/Properties_C01_all.v", samples=0)      # holds the C12_reenabled_* theorems
 
 def check_C04(ctx):
     os.environ["KGEN_STATUSGC"] = "1"     # the valid/swaps profiles then also call StatusAttrib::garbage_collection
